@@ -128,7 +128,14 @@ pub fn judge(_cfg: &Config, case: &Case, l: &mut Local, stratum: &str) {
                         ParseError::InvalidFieldFormat(x) => (x.field_tag == *tag, x.value == *content),
                         _ => (false, false),
                     };
-                    if !(s_tag || names_tag(&rendered, tag)) {
+                    // a structured payload, where the error has one, must itself be right: its tag
+                    // component is the culprit's tag (or its number), not some other text
+                    if let ParseError::InvalidFieldFormat(x) = &e
+                        && !(x.field_tag == *tag || x.field_tag.as_str() == &tag[..2.min(tag.len())])
+                        && (x.value == *tag || !crate::tok::is_tag(&x.field_tag))
+                    {
+                        v(l, mt, "corrupted", tag, "payload-tag-is-not-a-tag", format!("MT{mt}: the structured error for invalid field {tag} carries {:?} in its tag component (value component: {:?})", x.field_tag.chars().take(30).collect::<String>(), x.value.chars().take(30).collect::<String>()), case);
+                    } else if !(s_tag || names_tag(&rendered, tag)) {
                         let reported = crate::props::c02::err_class(&e);
                         v(
                             l,
